@@ -5,12 +5,16 @@ M: Gen_Filters.tla - the WorstFilter machine equals the declarative RunMin on ev
 G: the same module with Emit=TRUE prints every (curve, knee list) with the expected outputs of the three
    functions for the fixed thresholds plus every IoU value of the curve (exact ties); replayed into
    postprocessing.filter_worst_knees / filter_corner_knees / select_corner_knees, each applied twice.
-T: random real-valued curves: exact height ranks + per-knee IoU classes from knee_ranking.rect_overlap
-   (bit-exact comparison with t, thresholds harvested from observed IoU values) judged by Trace_Filters.
+T: random real-valued curves: exact height ranks + per-knee IoU classes from the check's OWN exact-rational IoU of the two
+   documented rectangles (integer arithmetic on the float values; only a knee whose exact IoU is within 1e-12 relative of t -
+   the harvested ties - is classed by a bit-exact comparison of knee_ranking.rect_overlap with t) judged by Trace_Filters.
 S: the "scale" family - production-size calls (257 .. 7*10^4 knees on curves of 257 .. 1.1*10^5 points, several shapes and
    knee layouts, thresholds 0.33 / 0 / 1 / 0.5 / harvested ties, float64 and int64 data) under the loop-budget monitor,
    judged by Trace_FiltersScale (the same property-level operators, SPARSE tables: height ranks and IoU classes of the
-   knees only; nothing is indexed by the points of the curve)."""
+   knees only; nothing is indexed by the points of the curve).  The IoU classes come from the exact-rational oracle above,
+   independent of the library's rect / rect_overlap; a "dense" class (4*10^3 .. 1.1*10^5 points sampled so finely that the
+   coordinate steps are 10^-5 .. 10^-9 of the coordinates, 800 .. 5*10^4 knees, t = 0.33 / quantiles / knife-edge thresholds
+   placed inside the tightest gap between two observed IoU values) makes reduced-precision geometry visible."""
 import random
 
 import numpy as np
@@ -110,14 +114,53 @@ def _iou(P, k):
     return float(kr.rect_overlap(amin, amax, bmin, bmax))
 
 
+NEAR_IOU = 10 ** 12              # |IoU - t| <= max(IoU, t) / NEAR_IOU: within rounding noise of a tie, the definition pins nothing
+
+
+def _xiou(P, k):
+    """The property's IoU from its documented definition - corner rectangle (x0, y2)-(x1, y1), neighbour rectangle
+    (x0, y0)-(x2, y2), 0 when the intersection has no area - as an EXACT rational (num, den), den > 0, of the float / integer
+    coordinates themselves (integers over their common power-of-two denominator): nothing of the library is involved."""
+    r = [v.as_integer_ratio() for row in P[k - 1:k + 2].tolist() for v in row]
+    D = max(q for _, q in r)
+    x0, y0, x1, y1, x2, y2 = (p * (D // q) for p, q in r)               # denominators are powers of two
+    ax0, ax1, ay0, ay1 = min(x0, x1), max(x0, x1), min(y2, y1), max(y2, y1)
+    bx0, bx1, by0, by1 = min(x0, x2), max(x0, x2), min(y0, y2), max(y0, y2)
+    dx = max(0, min(ax1, bx1) - max(ax0, bx0))
+    dy = max(0, min(ay1, by1) - max(ay0, by0))
+    inter = dx * dy
+    if inter <= 0:
+        return 0, 1
+    return inter, (ax1 - ax0) * (ay1 - ay0) + (bx1 - bx0) * (by1 - by0) - inter
+
+
+def _xside(iou, tq):
+    """-1: IoU < t, +1: IoU >= t, 0: NEAR (within 1e-12 relative of t, exact ties included); tq = float(t).as_integer_ratio()."""
+    a, b = iou[0] * tq[1], tq[0] * iou[1]
+    if NEAR_IOU * abs(a - b) <= max(a, b):
+        return 0
+    return -1 if a < b else 1
+
+
+def _xclass(P, k, xi, t, tq):
+    """1: IoU < t, 2: IoU >= t.  Decided by the exact oracle; a NEAR knee (this is where the thresholds harvested from the
+    library's own values land) is classed as before by the bit-exact comparison of the library's primitive with t."""
+    s = _xside(xi, tq)
+    if s == 0:
+        return 1 if _iou(P, k) < t else 2
+    return 1 if s < 0 else 2
+
+
 def _record(item):
     import kneeliverse.postprocessing as pp
     cid, pts, knees, t = item
+    tq = float(t).as_integer_ratio()
     P = np.asarray(pts, float)
     n = len(P)
     c = {"id": cid, "kind": "c13", "n": n, "knees": list(knees), "raised": "",
          "hr": numeric.ranks(P[:, 1], rel=0.0, ab=0.0),
-         "cls": ["-" if not (k - 1 >= 0 and k + 1 < n) else ("below" if _iou(P, k) < t else "atleast") for k in knees],
+         "cls": ["-" if not (k - 1 >= 0 and k + 1 < n) else ("below", "atleast")[_xclass(P, k, _xiou(P, k), t, tq) - 1]
+                 for k in knees],
          "worst": [], "worst2": [], "filt": [], "filt2": [], "sel": [], "sel2": []}
     for key, fn, a in (("worst", pp.filter_worst_knees, ()), ("filt", pp.filter_corner_knees, (t,)),
                        ("sel", pp.select_corner_knees, (t,))):
@@ -191,6 +234,18 @@ S_CLASSES_THOROUGH = ((256, 4.0, 30, 3), (1024, 3.0, 20, 3), (4096, 2.0, 8, 2), 
 S_DENSE = (("droughts", "all"), ("walk", "run"), ("droughts", "run"), ("noisy-descent", "all"))
 S_TSPECS = (["q", 0.5], 0.5, ["q", 0.9], 0.0, ["q", 0.1], 1.0, ["q", 0.7], 0.25)
 S_WORST = ("running-minimum", "tie-kept", "idempotent(%s)" % FW)
+# the "dense" class: long finely sampled curves (coordinate steps of 10^-5 .. 10^-9 of the coordinates) with many knees, so that
+# some IoU lies within ~10^-3 of t = 0.33 and - for the ["gap", j] thresholds, the midpoint of the j-th tightest gap (>= 4e-9
+# relative) between two adjacent observed IoU values - within ~10^-9: a knee moves to the other side under any geometry that is
+# less exact than double precision, while double rounding (~10^-15) stays 6 orders of magnitude inside the margin.
+# (curve-length threshold straddled, knees as a fraction of n, combos, thresholds per combo)
+S_DENSE_SHAPES = ("dense-decay", "dense-smooth", "dense-offset")
+S_DENSE_LAYOUTS = ("stride", "random+ends", "run", "random")
+S_DENSE_QUICK = ((100000, 0.2, 1, ([0.33],)), (65536, 0.1, 1, ([["gap", 0]],)), (100000, 0.15, 1, ([["gap", 1]],)),
+                 (16384, 0.2, 1, ([0.33, ["gap", 0]],)), (4096, 0.2, 2, ([0.33, ["gap", 0]], [["q", 0.5], ["gap", 2]])))
+S_DENSE_THOROUGH = ((100000, 0.2, 3, ([0.33, ["gap", 0]],)), (100000, 0.5, 1, ([0.33],)), (65536, 0.2, 3, ([0.33, ["gap", 0]], [["q", 0.5], ["gap", 1]])),
+                    (32768, 0.2, 3, ([0.33, ["gap", 0]], [["q", 0.3], ["gap", 2]])), (16384, 0.3, 3, ([0.33, ["gap", 0], 0.25],)),
+                    (10000, 0.3, 3, ([0.33, ["gap", 0], ["q", 0.7]],)), (4096, 0.3, 6, ([0.33, ["gap", 0], ["gap", 3]], [["q", 0.5], ["gap", 1], 0.25])))
 
 
 class _Stop(Exception):
@@ -231,6 +286,17 @@ def _s_curve(shape, n, cs):
         x = np.cumsum(g.uniform(0.5, 1.5, n))
         y = 40.0 * (1.0 - i / n) + g.random(n)
         return np.ascontiguousarray(np.column_stack([x, y]))
+    if shape == "dense-decay":        # strictly decreasing in (0, 1) by random steps of about 1/n: IoU values all over [0, 1/4]
+        st = g.uniform(0.05, 1.0, n)                                    # and steps of ~10^-5 of the heights for n = 10^5
+        return np.ascontiguousarray(np.column_stack([i, 1.0 - np.cumsum(st) / (st.sum() * 1.000001)]))
+    if shape == "dense-smooth":       # a smooth convex decay sampled at uneven real abscissae + texture far below the steps
+        x = np.cumsum(g.uniform(0.5, 1.5, n)) / 16.0
+        y = 1000.0 * np.exp(-4.0 * x / x[-1]) + 50.0 / (1.0 + x) + 1e-4 * g.random(n)
+        return np.ascontiguousarray(np.column_stack([x, y]))
+    if shape == "dense-offset":       # millisecond-like abscissae far from the origin, heights that vary in the 6th..9th digit
+        x = 86400.0 + np.cumsum(g.uniform(2e-4, 2e-3, n))
+        y = 1000.0 + np.cumsum(g.normal(-0.2, 1.0, n)) * 1e-5
+        return np.ascontiguousarray(np.column_stack([x, y - min(0.0, y.min())]))
     raise ValueError(shape)
 
 
@@ -241,6 +307,9 @@ def _s_knees(layout, P, m, ks):
     m = min(m, n)
     if layout == "all" or m == n:
         return list(range(n))
+    if layout == "stride":            # every (n // m)-th point from a random offset (a knee every few points)
+        step = max(1, n // m)
+        return list(range(r.randrange(step), n, step))
     if layout == "run":               # one contiguous block, at the left end / at the right end / somewhere
         a = r.choice([0, n - m, r.randrange(0, n - m + 1)])
         return list(range(a, a + m))
@@ -278,25 +347,41 @@ def _s_record(rc):
     if rc["variant"] == "int64":
         P = np.ascontiguousarray(P.astype(np.int64))
     n, m = len(P), len(knees)
-    iou = [(_iou(P, k) if 0 < k < n - 1 else None) for k in knees]
+    iou = [(_iou(P, k) if 0 < k < n - 1 else None) for k in knees]      # the library's primitive: tie harvesting and NEAR knees only
+    xi = [(_xiou(P, k) if 0 < k < n - 1 else None) for k in knees]      # the exact oracle
     obs = sorted(set(v for v in iou if v is not None and v > 0.0))
+    xf = None
     ts = []
     for spec in rc["ts"]:             # ["q", f]: the f-quantile of the distinct positive IoU values of these knees (an exact tie)
-        if isinstance(spec, (list, tuple)):
+        if isinstance(spec, (list, tuple)) and spec[0] == "gap":      # midpoint of the j-th tightest gap of >= 4e-9 relative between
+            if xf is None:                                             # adjacent exact IoU values: a knife edge, yet no NEAR knee
+                xf = sorted(set(v[0] / v[1] for v in xi if v is not None and v[0] > 0))
+                xf = sorted((b - a, a, b) for a, b in zip(xf, xf[1:]) if b - a >= 4e-9 * b)
+            gap, lo_, _ = xf[min(int(spec[1]), len(xf) - 1)] if xf else (0.0, 0.25, 0.25)
+            ts.append(min(1.0, lo_ + gap / 2.0))
+        elif isinstance(spec, (list, tuple)):
             ts.append(obs[min(len(obs) - 1, int(spec[1] * len(obs)))] if obs else 0.25)
         else:
             ts.append(float(spec))
     c = {"id": rc["id"], "kind": "c13s", "n": n, "knees": knees, "raised": "", "worst": [], "worst2": [], "ts": [],
          "kh": numeric.ranks(np.asarray(P[knees, 1], float), rel=0.0, ab=0.0)}
-    st = {"n": n, "m": m, "nt": [], "ties": 0, "zero": sum(1 for v in iou if v == 0.0), "kept": 0}
+    st = {"n": n, "m": m, "nt": [], "ties": 0, "zero": sum(1 for v in iou if v == 0.0), "kept": 0, "exact": 0, "near": 0,
+          "margin": None}
     try:                              # a call that does not complete is a verdict of its own part only
         c["worst"], c["worst2"] = _s_twice(pp.filter_worst_knees, P, knees)
         st["kept"] = len(c["worst"])
     except _Stop as ex:
         c["raised"] = str(ex)
     for t in ts:
-        r = {"t": repr(float(t)), "raised": "", "cls": [0 if v is None else (1 if v < t else 2) for v in iou],
-             "filt": [], "filt2": [], "sel": [], "sel2": []}
+        tq = float(t).as_integer_ratio()
+        side = [None if v is None else _xside(v, tq) for v in xi]
+        r = {"t": repr(float(t)), "raised": "", "filt": [], "filt2": [], "sel": [], "sel2": [],
+             "cls": [0 if sd is None else ((1 if v < t else 2) if sd == 0 else (1 if sd < 0 else 2)) for sd, v in zip(side, iou)]}
+        st["near"] += sum(1 for sd in side if sd == 0)
+        st["exact"] += sum(1 for sd in side if sd)
+        mg = min((abs(v[0] / v[1] - t) for sd, v in zip(side, xi) if sd), default=None)
+        if mg is not None and (st["margin"] is None or mg < st["margin"]):
+            st["margin"] = mg
         try:
             r["filt"], r["filt2"] = _s_twice(pp.filter_corner_knees, P, knees, t)
             r["sel"], r["sel2"] = _s_twice(pp.select_corner_knees, P, knees, t)
@@ -331,6 +416,15 @@ def _s_plan(ctx):
             ts = [0.33][:nts] + [S_TSPECS[(o3 + 3 * k + q) % len(S_TSPECS)] for q in range(nts - 1)]
             out.append({"id": "s%d" % k, "shape": shape, "n": n, "cs": rng.randrange(1 << 30), "layout": layout, "m": m,
                         "ks": rng.randrange(1 << 30), "variant": variant, "ts": ts})
+    o4, o5 = rng.randrange(len(S_DENSE_SHAPES)), rng.randrange(len(S_DENSE_LAYOUTS))
+    for thr, frac, cnt, tss in (S_DENSE_QUICK if ctx.quick else S_DENSE_THOROUGH):       # the dense class (see S_DENSE_SHAPES)
+        for j in range(cnt):
+            k = len(out)
+            n = thr + 1 + rng.randrange(0, max(2, thr // 10))
+            first = 0.33 in tss[j % len(tss)] and j == 0             # t = 0.33 needs IoU values spread around it: dense-decay
+            out.append({"id": "s%d" % k, "shape": "dense-decay" if first else S_DENSE_SHAPES[(k + o4) % len(S_DENSE_SHAPES)], "n": n,
+                        "cs": rng.randrange(1 << 30), "layout": S_DENSE_LAYOUTS[(k + o5) % len(S_DENSE_LAYOUTS)],
+                        "m": max(3, int(n * frac)), "ks": rng.randrange(1 << 30), "variant": "float64", "ts": list(tss[j % len(tss)])})
     return out
 
 
@@ -407,6 +501,11 @@ def _s_detail(v, rc):
         a, b = ("once", "twice") if v[0].startswith("idempotent") else ("returned", "expected")
         d.update({a + "_length": body[0], b + "_length": body[1],
                   "first_difference": {"position": body[2], a: body[3], b: body[4]}})
+        ks = [int(x) for x in body[3:5] if int(x) >= 0]
+        if v[0].startswith("corner-split") and ks and 0 < min(ks) < rc["n"] - 1:       # the knee on the wrong side of t
+            P = _s_curve(rc["shape"], rc["n"], rc["cs"])
+            num, den = _xiou(P.astype(np.int64) if rc["variant"] == "int64" else P, min(ks))
+            d["first_difference"].update({"knee": min(ks), "iou_exact": num / den, "iou_minus_t": num / den - float(d["t"])})
     return d
 
 
@@ -434,6 +533,11 @@ def _scale(ctx, seen):
         "points_per_curve": sorted(set(st["n"] for _, _, st in res)),
         "shapes": by("shape"), "layouts": by("layout"), "variants": by("variant"),
         "zero_overlap_knees": sum(st["zero"] for _, _, st in res), "exact_iou_ties": sum(st["ties"] for _, _, st in res),
+        "iou_oracle": {"knee_x_threshold_decisions_by_exact_rational_iou": sum(st["exact"] for _, _, st in res),
+                       "near_ties_classed_by_library_primitive": sum(st["near"] for _, _, st in res),
+                       "smallest_decisive_margin_abs": min((st["margin"] for _, _, st in res if st["margin"] is not None), default=None),
+                       "dense_calls": sum(1 for rc in plan if rc["shape"] in S_DENSE_SHAPES),
+                       "dense_knees_max": max([st["m"] for rc, (_, _, st) in zip(plan, res) if rc["shape"] in S_DENSE_SHAPES] or [0])},
         "knees_dropped_by_height_filter": sum(st["m"] - st["kept"] for _, _, st in res),
         "did_not_complete": sum(bool(c["raised"]) + sum(1 for r in c["ts"] if r["raised"]) for c in cases),
         "largest_tlc_input_bytes": biggest, "tlc_runs": -(-(len(cases) + len(stc)) // chunk)}
@@ -442,8 +546,11 @@ def _scale(ctx, seen):
                 "kept_by_height_filter": big[1][2]["kept"], "zero_overlap_knees": big[1][2]["zero"],
                 "corner_outputs": [{"t": r["t"], "filter": len(r["filt"]), "select": len(r["sel"])} for r in big[1][0]["ts"]]})
     ctx.note("scale family: every clause of the property is judged (the rule, partition, ends, order, idempotence of the three "
-             "functions); nothing was left out.  Height ranks are exact (no noise merging) and IoU classes are bit-exact "
-             "comparisons of the library's own rect / rect_overlap with t, as for the small inputs, so no tolerance grows with n.")
+             "functions); nothing was left out.  Height ranks are exact (no noise merging).  IoU classes come from an oracle that "
+             "is independent of the library: the IoU of the two documented rectangles as an exact rational of the float / int64 "
+             "coordinates, compared exactly with t; only a knee within 1e-12 relative of t (the harvested ties and t = 0 / 1 on "
+             "degenerate rectangles) is classed by the bit-exact comparison of the library's own rect / rect_overlap with t, as "
+             "before.  Each decision concerns one knee (three points), so no tolerance grows with n.")
 
 
 def run(ctx):
@@ -457,14 +564,23 @@ def run(ctx):
                 "descents, MRC-like, spikes, "
                 "convex; random / with both ends / contiguous / corner-rich / every-point knee lists; float64 and int64; t = 0.33 "
                 "plus 0, 1, 1/2, 1/4 and harvested exact ties), each function applied twice under the loop-budget monitor and "
-                "judged for every clause by Trace_FiltersScale with tables over the knees only")
+                "judged for every clause by Trace_FiltersScale with tables over the knees only.  The IoU classes of S and T are "
+                "computed by the check itself in exact rational arithmetic from the documented rectangles (not through the library's "
+                "rect / rect_overlap), and S includes a dense class - finely sampled curves of 4*10^3 .. 1.1*10^5 points (random "
+                "strictly decreasing steps, a smooth decay at uneven abscissae, small steps on large offsets) with n/10 .. n/2 knees "
+                "(every k-th point / random / contiguous), t = 0.33, quantile ties and knife-edge thresholds inside the tightest "
+                ">= 4e-9 gap between two observed IoU values")
     ctx.assumptions += [
         "G domain: small integer coordinates; t = float(p/q) - one correctly rounded division decides like the rational",
-        "T: heights are compared exactly (dense ranks without noise merging); IoU classes are bit-exact comparisons of "
-        "knee_ranking.rect_overlap(rect((x0,y2),p1), rect(p0,p2)) with t (the primitives themselves are C17's business)",
+        "T: heights are compared exactly (dense ranks without noise merging); the IoU of rect((x0,y2),p1) and rect(p0,p2) (0 when "
+        "the intersection has no area) is an exact rational of the coordinates and is compared exactly with t; NEAR policy: when "
+        "|IoU - t| <= 1e-12 * max(IoU, t) the class is the bit-exact comparison of knee_ranking.rect_overlap(...) with t (a tie "
+        "within rounding noise pins nothing beyond the library's own primitive, which is C17's business)",
         "knee lists are ascending and duplicate-free; the empty list is included",
-        "S: same policy as T at production size - exact height ranks of the knees, bit-exact IoU classes from the library's own "
-        "primitives on the array that is passed to the call; the linear prefix-minimum scan used above 1200 knees is ASSUMEd "
+        "S: same policy as T at production size - exact height ranks of the knees, exact-rational IoU classes (NEAR knees: the "
+        "library's own primitives on the array that is passed to the call); double-precision evaluation of the IoU is accurate to "
+        "~1e-15 relative (differences of neighbouring coordinates, two products, a + b - overlap >= max(a, b)), the knife-edge "
+        "thresholds keep every knee >= 2e-9 relative away; the linear prefix-minimum scan used above 1200 knees is ASSUMEd "
         "equal to the declarative RunMin on all height tables over 0..2 of length <= 6 and re-compared on every case below"]
     ctx.mc("Gen_Filters", "MC_Filters_strict", expect="MachineIsRunMin")
     ctx.mc("Gen_Filters", "MC_Filters_stale", expect="MachineIsRunMin")
